@@ -7,16 +7,18 @@ from copy import deepcopy
 from typing import TYPE_CHECKING
 
 # Third Party Imports
-from numpy import argwhere, array, ceil, concatenate, delete, dot, hstack, linspace, ones, outer
+from numpy import argwhere, array, ceil, concatenate, delete, dot, exp, hstack, linspace, log, ones, outer
 from numpy import round as np_round
 from numpy import sum as np_sum
 from numpy import union1d, vstack, zeros
+from numpy.linalg import slogdet
 from scipy.linalg import norm
 
 # Local Imports
 from ...data import getDBConnection
 from ...data.queries import fetchEstimatesByJDInterval, fetchObservationsByJDInterval
 from ...dynamics.celestial import EarthCollisionError
+from ...physics import constants as const
 from ...physics.orbit_determination.lambert import determineTransferDirection
 from ...physics.time.stardate import JulianDate, ScenarioTime
 from ...physics.transforms.methods import radarObs2eciPosition
@@ -68,6 +70,9 @@ class AdaptiveFilter(KalmanFilter):
         model_weights (``ndarray``): model weighting factors
         num_models (``int``): number of models
     """
+
+    MAX_LOG_LIKELIHOOD = 690.0
+    """``float``: largest logarithm of a model likelihood that is evaluated as is (largest float is exp(709.78))."""
 
     def __init__(
         self,
@@ -638,6 +643,31 @@ class AdaptiveFilter(KalmanFilter):
                 self.model_weights,
             )
             self.nis = dot([x.nis for x in self.models], self.model_weights)
+
+    def _calcModelLikelihoods(self) -> ndarray:
+        r"""Calculate the Gaussian likelihood of the innovation of every model.
+
+        The density is evaluated through its logarithm. The determinant of a stacked innovation
+        covariance (several sensors observing during the same timestep) leaves the floating point
+        range long before the density itself does, which turned every model probability into NaN.
+
+        References:
+            :cite:t:`nastasi_2018_diss`, Section 4.5 Algorithm 4.3 eq 4.9 pg 64
+
+        Returns:
+            ``ndarray``: likelihood of each model
+        """
+        log_likelihoods = zeros(len(self.models))
+        for num, model in enumerate(self.models):
+            _, log_det = slogdet(model.innov_cvr)
+            log_likelihoods[num] = -0.5 * (
+                model.nis + model.innov_cvr.shape[0] * log(2 * const.PI) + log_det
+            )
+
+        # [NOTE]: only the ratios between the models matter, so densities that are too large for a
+        #   float are scaled down together.
+        log_likelihoods -= max(0.0, log_likelihoods.max() - self.MAX_LOG_LIKELIHOOD)
+        return exp(log_likelihoods)
 
     def prune(self, prune_index: ndarray, observations: list[Observation]):
         """Prune off filter candidate solutions.
